@@ -83,7 +83,38 @@ def sym_name(k, body=None):
         return body.local_name(k[1]) or "arg%d" % k[1]
     if k[0] == "phi" and body is not None:
         return "%s*" % (body.local_name(k[1]) or "_%d" % k[1])
+    if k[0] == "place" and body is not None:
+        return "%s.%s" % (body.local_name(k[1]) or "_%d" % k[1], ".".join(k[2]))
     return repr(k)
+
+
+BOX_NOISE = {("0", "Box"), ("pointer", "Unique"), ("pointer", "NonNull")}
+
+
+def canon_place(body, place, depth=0):
+    """(root local, field-name tuple) of a place, looking through references, copies, casts and Box/NonNull plumbing"""
+    fields = []
+    for e in place["proj"]:
+        if isinstance(e, dict) and "field" in e:
+            of = e["of"].rsplit("::", 1)[-1]
+            if (e["name"], of) in BOX_NOISE:
+                continue
+            fields.append(e["name"])
+    root = place["local"]
+    if depth < 14:
+        srcs = [x for x in flow(body).sources(root) if x[0] != "partial"]
+        if len(srcs) == 1:
+            kind, data, pt = srcs[0]
+            if kind in ("ref", "field"):
+                r, f = canon_place(body, data, depth + 1)
+                return r, f + tuple(fields)
+            if kind == "copy":
+                r, f = canon_place(body, {"local": data, "proj": []}, depth + 1)
+                return r, f + tuple(fields)
+            if kind == "view":
+                r, f = canon_place(body, {"local": data[1], "proj": []}, depth + 1)
+                return r, f + tuple(fields)
+    return root, tuple(fields)
 
 
 class Evaluator:
@@ -118,6 +149,10 @@ class Evaluator:
                 return self.operand(srcs[0][1], depth)
             if len(srcs) == 1 and srcs[0][0] == "ref" and srcs[0][1]["proj"] == ["deref"]:
                 return self.operand({"copy": {"local": srcs[0][1]["local"], "proj": ["deref"]}}, depth + 1)
+        # a field of some object: symbolic, canonicalised through references / Box plumbing
+        r, f = canon_place(self.body, p)
+        if f:
+            return Aff.sym(("place", r, f))
         return TOP
 
     def local(self, l, depth=0, tuple_field=None, at=None):
